@@ -3,13 +3,14 @@ Arithmetic of the compiler's jump emission (`compiler.rs`): `emit_jump` + `Compi
 (forward jumps, also used for `break`), `emit_loop` (backward jumps) and `patch_offset_at`
 (`PushExcHandler` operands), against how the VM decodes the operand (`read_short`, u16).
 
-`common::JUMP_SIZE_MAX = u16::MAX as usize + 1 = 65536` and every check is `distance > JUMP_SIZE_MAX`,
-so a distance of exactly 65536 is ACCEPTED and then truncated by `as u16` to 0 (known defect F9).
+`common::JUMP_SIZE_MAX = u16::MAX as usize = 65535` (tied to the regenerated `Yarel.Gen.limits` by `Props/C04.lean`
+`jump_limit_is_the_sources`) and every check is `distance > JUMP_SIZE_MAX`, so every accepted distance fits the u16 operand.
+(Before the repair F9 the constant was 65536: a distance of exactly 65536 was accepted and truncated to 0.)
 `usize` subtraction that would underflow (panic in debug builds, wrap in release) is an explicit `fault`.
 -/
 namespace Yarel.JumpLimits
 
-def JUMP_SIZE_MAX : Nat := 65536
+def JUMP_SIZE_MAX : Nat := 65535
 
 inductive Emit where
   | fault                     -- usize underflow in the distance computation
